@@ -24,6 +24,7 @@ func (o *lockOp) name() string { return fmt.Sprintf("Mutex.Lock %p", o.m) }
 func (m *Mutex) Lock() {
 	if s := active; s != nil {
 		if s.aborting {
+			m.locked = true
 			return
 		}
 		s.point(&lockOp{m})
@@ -40,6 +41,7 @@ func (m *Mutex) Lock() {
 func (m *Mutex) Unlock() {
 	if s := active; s != nil {
 		if s.aborting {
+			m.locked = false // objects that outlive an execution (package-level locks) must not stay locked
 			return
 		}
 		s.point(&plainOp{"Mutex.Unlock"})
@@ -115,6 +117,7 @@ func (m *RWMutex) Lock() {
 func (m *RWMutex) Unlock() {
 	if s := active; s != nil {
 		if s.aborting {
+			m.writer = false
 			return
 		}
 		s.point(&plainOp{"RWMutex.Unlock"})
@@ -148,6 +151,9 @@ func (m *RWMutex) RLock() {
 func (m *RWMutex) RUnlock() {
 	if s := active; s != nil {
 		if s.aborting {
+			if m.readers > 0 {
+				m.readers--
+			}
 			return
 		}
 		s.point(&plainOp{"RWMutex.RUnlock"})
